@@ -12,6 +12,7 @@ import (
 // c12Extra: rules added after the third independent seeding round.
 func c12Extra(r *core.Run) {
 	p := r.P
+	defer c12R10(r) // round 10: command-error identity, client built from the Redis' configuration
 	// go-redis takes a non-nil error returned by a hook as the command's (or, for a
 	// pipeline, every command's) error: an instrumentation hook has to return nil.
 	r.Check("D4/K8/hooks-are-observers", "the go-redis hooks installed by the wrapper never return an error of their own (go-redis would stamp it on the command, for a pipeline on every command): every return is nil, or – for the single-command hook only – the command's own error", func(o *core.O) {
